@@ -840,7 +840,8 @@ func (m *OrderedMap) PopIterate(fn MapPopIterationFunc) error {
 		}
 	}
 
-	return nil
+	// This map (m) is a parent updater's child element, notify parent to update.
+	return m.notifyParentIfNeeded()
 }
 
 // Slab operations (split root, promote child slab to root)
